@@ -32,7 +32,7 @@ impl Op {
 
 pub fn alphabet() -> Vec<Op> {
     let mut ops = vec![];
-    for d in [&b"0"[..], b"1", b"5", b"10", b"12", b"00", b"100", b"123", b""] {
+    for d in [&b"0"[..], b"1", b"5", b"10", b"12", b"00", b"100", b"123", b"", b"123000000", b"000000001"] {
         ops.push(Op::Put(d));
     }
     for d in [b'0', b'1', b'7'] {
